@@ -267,6 +267,8 @@ def parse_log(path):
                         inp.led = t
                     else:
                         cur.ledgers.append((len(cur.inputs), t))
+                elif c == b"G":
+                    cur.ledgers.append((len(cur.inputs), tuple(int(x) for x in line.split(b" ")[1:5])))
                 elif c == b"R":
                     (inp.ev if inp else cur.pre).append(("R", int(line[2:])))
                 elif c == b"A":
